@@ -301,6 +301,14 @@ func (e *c02Env) setPolicy(p c02Policy) {
 		e.cfg.OnDemand = nil
 	case "decision":
 		e.cfg.OnDemand = &certmagic.OnDemandConfig{DecisionFunc: e.decision}
+		if len(p.Allow) > 0 {
+			// names passed to Manage* on an on-demand config are recorded in the implicit allowlist
+			// also when a DecisionFunc is set; the DecisionFunc alone decides then (the model ignores
+			// the allowlist for a decision policy)
+			if err := e.cfg.ManageSync(context.Background(), p.Allow); err != nil {
+				panic(err)
+			}
+		}
 	case "allow":
 		e.cfg.OnDemand = &certmagic.OnDemandConfig{}
 		if len(p.Allow) > 0 {
@@ -1014,9 +1022,15 @@ func c02Policies(name string) map[string]c02Policy {
 		"decision-flip":  {OD: "decision", Sched: [][]string{{name}, {}}},        // permits once, then denies
 		"decision-flip2": {OD: "decision", Sched: [][]string{{}, {name}}},        // denies once, then permits
 		"decision-first": {OD: "decision", Sched: [][]string{{"first.example"}}}, // permits only another name of a multi-SAN certificate
-		"allow-in":       {OD: "allow", Allow: []string{name, "other.example"}},
-		"allow-out":      {OD: "allow", Allow: []string{"other.example"}},
-		"allow-empty":    {OD: "allow"},
+		// a DecisionFunc AND a non-empty implicit allowlist (names recorded by an earlier Manage* call)
+		"decision-yes+listed":   {OD: "decision", Sched: [][]string{{name, "other.example"}}, Allow: []string{name}},
+		"decision-no+listed":    {OD: "decision", Sched: [][]string{{"other.example"}}, Allow: []string{name, "first.example", "*.example"}},
+		"decision-no+unlisted":  {OD: "decision", Sched: [][]string{{"other.example"}}, Allow: []string{"other.example"}},
+		"decision-flip+listed":  {OD: "decision", Sched: [][]string{{name}, {}}, Allow: []string{name}},
+		"decision-yes+unlisted": {OD: "decision", Sched: [][]string{{name, "other.example"}}, Allow: []string{"other.example"}},
+		"allow-in":              {OD: "allow", Allow: []string{name, "other.example"}},
+		"allow-out":             {OD: "allow", Allow: []string{"other.example"}},
+		"allow-empty":           {OD: "allow"},
 	}
 }
 
@@ -1359,6 +1373,10 @@ func c02Run(tier string, seed int64, outdir string, replay string) error {
 		// a spare certificate another instance may store later
 		cs.Certs = append(cs.Certs, c02CertSpec{Names: []string{"foo.example"}, Class: "valid", Managed: true})
 		spare := len(cs.Certs)
+		// sometimes: names recorded in the implicit allowlist next to the DecisionFunc
+		if cs.Policy.OD == "decision" && rr.Intn(2) == 0 {
+			cs.Policy.Allow = []string{"foo.example", "bar.example"}
+		}
 		// sometimes: an external manager, a fallback certificate
 		mgrID := 0
 		if rr.Intn(3) == 0 {
@@ -1416,6 +1434,11 @@ func c02Run(tier string, seed int64, outdir string, replay string) error {
 				case "policy":
 					cs.Ops[j].Policy.Mgr = rr.Intn(3) != 0
 				}
+			}
+		}
+		for j := range cs.Ops {
+			if cs.Ops[j].Kind == "policy" && cs.Ops[j].Policy.OD == "decision" && rr.Intn(2) == 0 {
+				cs.Ops[j].Policy.Allow = []string{"foo.example", "bar.example"}
 			}
 		}
 		if err := run(cs, map[string]any{"class": "history", "len": len(cs.Ops)}); err != nil {
